@@ -362,6 +362,10 @@ def feature_table(n, boundary_only=False):
     tab = [("misc_feature", p) for p in simple_locations(n, boundary_only=boundary_only)]
     tab += [("CDS", p) for p in join_menu(n)]
     tab += whole_length(n)
+    # features *typed* "source" that do not cover the whole record (e.g. inherited provenance features)
+    tab += [("source", [(0, b, 1)]) for b in range(1, n)]
+    if n >= 4:
+        tab += [("source", [(1, 3, 1)]), ("source", [(0, 2, -1)]), ("source", [(n - 2, n, 1)]), ("source", [(n - 2, n, 1), (0, 1, 1)])]
     return tab
 
 
